@@ -397,12 +397,20 @@ def main():
         # attribute the decoder used to set, a value its own encoder refuses, …).  That is a correspondence that no longer checks, not a
         # verdict about the property and not silence either: reported as the brief prescribes, with the traceback as the replay.
         tb_text = traceback.format_exc()
-        path = write_replay(prop, {"property": prop, "kind": "no-failing-input-found", "broken_obligations": broken + [
+        if ctx.violations:
+            # the run had already recorded concrete failing inputs before it tripped: those are the report (with their replay), the abort is
+            # one more thing that no longer checks
+            ctx.notes.append("the correspondence run aborted after recording violations: " + tb_text.splitlines()[-1][:200])
+            broken.append({"obligation": "correspondence run", "kind": "the harness raised while driving / decoding the implementation", "log": tb_text[-3000:]})
+            path = None
+        else:
+            path = write_replay(prop, {"property": prop, "kind": "no-failing-input-found", "broken_obligations": broken + [
             {"obligation": "correspondence run", "kind": "the harness raised while driving / decoding the implementation", "log": tb_text[-3000:]}],
-            "disagreements": ctx.disagreements[:5]})
+                "disagreements": ctx.disagreements[:5]})
         print("  correspondence run aborted: the harness raised while driving the implementation\n" + "\n".join("    " + l for l in tb_text.splitlines()[-8:]))
-        print(f"VIOLATION property={prop} replay={path} no-failing-input-found")
-        return 1
+        if path is not None:
+            print(f"VIOLATION property={prop} replay={path} no-failing-input-found")
+            return 1
     finally:
         signal.alarm(0)
 
